@@ -260,7 +260,50 @@ func (c *Ctx) ruleNoSyntacticType() {
 			c.check(okD, "NO-SYNTACTIC-TYPE", FuncName(fn), P.Pos(call.Pos()), "spelling is read from a method declaration's receiver only", "a type is identified by the spelling of a type expression that is not a declaration's receiver: "+short(d))
 		})
 	}
-	c.floor("ExtractReceiverType call sites", n, 2)
+	c.floor("ExtractReceiverType call sites", n, 1)
+	// ... and only as a fallback: the receiver type under which a method annotation is indexed (and under which the
+	// enclosing method is looked up) is the defined type the method belongs to, taken from the method's object -
+	// `func (a *A) M()` with `type A = T` is a method of T, and T is what call sites look up
+	nRecv := 0
+	byObject := func(v ssa.Value) bool {
+		return P.RootsAnyDeep(v, func(r ssa.Value) bool {
+			call, ok := r.(*ssa.Call)
+			if !ok || call.Call.StaticCallee() == nil || FuncName(call.Call.StaticCallee()) != "util.ExtractTypeName" {
+				return false
+			}
+			_, callees := P.derives(call.Call.Args[0], func(ssa.Value) bool { return false }, 10)
+			return hasCallee(callees, "(*go/types.Signature).Recv")
+		})
+	}
+	for _, fn := range P.ModFuncs {
+		allInstrs(fn, func(b *ssa.BasicBlock, ins ssa.Instruction) {
+			call, ok := ins.(*ssa.Call)
+			if !ok || call.Call.StaticCallee() == nil {
+				return
+			}
+			var recv ssa.Value
+			switch FuncName(call.Call.StaticCallee()) {
+			case "annotations.parseTestOnlyAnnotation":
+				recv = call.Call.Args[4]
+			case "annotations.parsePackageOnlyAnnotation":
+				recv = call.Call.Args[4]
+			case fnMatch:
+				if strings.HasSuffix(FuncName(fn), "isInTestOnlyContext") && len(call.Call.Args) == 4 && strings.Contains(P.Desc(call.Call.Args[0]), "testOnlyMethods") {
+					recv = call.Call.Args[3]
+				}
+			}
+			if recv == nil {
+				return
+			}
+			if _, isConst := recv.(*ssa.Const); isConst {
+				return // annotation on a type declaration: no receiver
+			}
+			nRecv++
+			c.check(byObject(recv), "RECEIVER-BY-TYPE", FuncName(fn)+"->"+FuncName(call.Call.StaticCallee()), P.Pos(call.Pos()), "receiver type name comes from the method object's receiver type (aliases resolved), the spelling only as fallback",
+				"the receiver type of a method is taken from its spelling only: a method declared through an alias receiver (type A = T; func (a *A) M()) is indexed under A and never matched by calls, which are looked up under T: "+short(P.DescDeep(recv)))
+		})
+	}
+	c.floor("uses of a method's receiver type name", nRecv, 3)
 	// no checker reads identifier spelling of a *type expression* (Ident.Name of ValueSpec.Type, CompositeLit.Type ...)
 	bad := 0
 	for _, fn := range P.ModFuncs {
